@@ -134,3 +134,26 @@ def random_cases(rng, n, Lmax, vals, S=1, inners=("sq",), windows=None, pens=(0,
                              ms=rng.choice(list(mss)), md=rng.choice(list(mds)), mld=rng.choice(list(mlds)),
                              psi=psi, prune=prune))
     return out
+
+
+def sliding_end_cases(rng, n, pts, inners):
+    """Relaxed ends under a SLIDING band: series longer than twice the window plus the length difference, small
+    psi at the end of either series, and a tail that makes skipping exactly those points attractive."""
+    out = []
+    for _ in range(n):
+        l1, l2 = rng.randint(5, 9), rng.randint(5, 9)
+        w = rng.choice([1, 2, 2, 3])
+        e1, e2 = rng.choice([(0, 1), (0, 2), (1, 0), (2, 0), (1, 1), (1, 2), (2, 1)])
+        base = [list(rng.choice(pts)) for _ in range(max(l1, l2))]
+        a = [list(p) for p in base[:l1]]
+        b = [list(p) for p in base[:l2]]
+        for k in range(rng.randint(0, 2)):
+            b[rng.randrange(l2)] = list(rng.choice(pts))
+        far = list(pts[-2])
+        for k in range(e2):
+            b[l2 - 1 - k] = far if a[min(l1 - 1, l2 - 1 - k)] != far else list(pts[0])
+        for k in range(e1):
+            a[l1 - 1 - k] = far if b[min(l2 - 1, l1 - 1 - k)] != far else list(pts[0])
+        out.append(base_case(a, b, inner=rng.choice(list(inners)), w=w, pen=rng.choice([0, 0, 1]),
+                             psi=(rng.choice([0, 0, 1]), e1, rng.choice([0, 0, 1]), e2)))
+    return out
